@@ -344,6 +344,14 @@ class Evaluator:
 
     def call(self, e: ast.Call) -> Any:
         fname = dotted(e.func) or unparse(e.func)
+        recv_done = False
+        recv_val = None
+        if isinstance(e.func, ast.Attribute) and \
+                isinstance(e.func.value, (ast.Call, ast.Await)):
+            recv_val = self.ev(e.func.value)
+            recv_done = True
+            if isinstance(recv_val, Obj):
+                fname = recv_val.tag + '.' + e.func.attr
         root = fname.split('.')[0]
         if root in self.env and isinstance(self.env[root], Obj) and \
                 root != 'self':
@@ -363,13 +371,18 @@ class Evaluator:
         # pure methods of concrete str / bytes / tuple values are folded
         if isinstance(e.func, ast.Attribute) and \
                 e.func.attr in _PURE_METHODS and not e.keywords:
-            try:
-                recv = self.ev(e.func.value)
-            except NotEvaluable:
-                recv = None
+            if recv_done:
+                recv = recv_val
+            else:
+                try:
+                    recv = self.ev(e.func.value)
+                except NotEvaluable:
+                    recv = None
+                recv_done, recv_val = True, recv
             if isinstance(recv, (str, bytes, tuple)) and \
                     not isinstance(recv, bool) and all(
-                        isinstance(a, (str, bytes, int, tuple, type(None)))
+                        isinstance(a, (str, bytes, int, tuple, list,
+                                       type(None)))
                         for a in targs):
                 try:
                     r = getattr(recv, e.func.attr)(*targs)
@@ -377,6 +390,24 @@ class Evaluator:
                     raise _Raise(type(exc).__name__, e)
                 if isinstance(r, list):
                     r = tuple(r)
+                return r
+        # mutable list values supplied by the rule (e.g. an argument list
+        # consumed with pop(0)) are updated in place and traced
+        if isinstance(e.func, ast.Attribute) and \
+                e.func.attr in ('pop', 'append', 'extend', 'clear', 'copy'):
+            if recv_done:
+                recv = recv_val
+            else:
+                try:
+                    recv = self.ev(e.func.value)
+                except NotEvaluable:
+                    recv = None
+            if isinstance(recv, list):
+                self.calls.append((fname, targs))
+                try:
+                    r = getattr(recv, e.func.attr)(*targs)
+                except IndexError:
+                    raise _Raise('IndexError', e)
                 return r
         if fname == 'enumerate' and len(targs) == 1 and \
                 isinstance(targs[0], (str, bytes, tuple)):
